@@ -1,5 +1,6 @@
 import NriModel.Lemmas.MuxStream
 import NriModel.Lemmas.MuxSys
+import NriModel.Lemmas.MuxWriter
 /-!
 Property theorems for C11 — the multiplexer fails stop: no gaps after errors, nothing hangs
 after close.  Model: `NriModel/Mux.lean` (one mux end as a transition system; `step s ev =
@@ -288,6 +289,54 @@ theorem C11_listener (l : Lst) :
   · intro hc; simp only [Lst.accept, hc]; split <;> simp
   · simp only [Lst.close]; split <;> simp_all
   · intro ⟨hc, hn⟩; simp [Lst.accept, hc, hn]
+
+
+/-! ### the writer side: a torn frame is the last thing a mux ever writes
+
+`NriModel/MuxWriter.lean` models `mux.write` at the byte level, with a trunk `Write` call that
+may fail after any number of bytes (a write deadline expiring, the peer gone). -/
+
+/-- Writer-side fail-stop, for EVERY sequence of `conn.Write`s (any ids, any chunking into frames
+    with ids and lengths below 2^32) and every failure of any trunk call after any number of
+    bytes: what a reader decodes from the trunk is exactly the frames that went out whole, from
+    any prefix of the trunk a prefix of them — never a frame glued together from the pieces of
+    two — and once the mux has closed no later Write adds a byte. (Repaired write loop: a failed
+    payload write always closes the mux, its header being out already.) -/
+theorem C11_writer_failstop (ops : List WOp) (hops : ∀ op ∈ ops, op.Bounded) :
+    (decode (wrun true ops).out).1 = (wrun true ops).whole ∧
+    (∀ k, (decode ((wrun true ops).out.take k)).1 <+: (wrun true ops).whole) ∧
+    ((wrun true ops).closed = true → ∀ more, wrun true more (wrun true ops) = wrun true ops) := by
+  have hinv := wrun_inv ops hops {} WInv.init
+  refine ⟨hinv.decode_out, fun k => ?_, fun hc more => wrun_closed true more _ hc⟩
+  have := C11_prefix (wrun true ops).out k
+  rw [hinv.decode_out] at this
+  exact this
+
+/-- Non-vacuity: a write torn inside its payload, then a write on another connection. The torn
+    frame is the last thing on the trunk, the later write does not go out at all. -/
+example :
+    let ops : List WOp := [⟨[⟨5, [1, 2, 3]⟩], none⟩, ⟨[⟨5, [65, 65, 65, 65]⟩], some (0, .payload 2)⟩,
+                           ⟨[⟨6, [66, 66]⟩], none⟩]
+    (wrun true ops).whole = [⟨5, [1, 2, 3]⟩] ∧ (wrun true ops).closed = true ∧
+    (wrun true ops).out = encodeFrame ⟨5, [1, 2, 3]⟩ ++ (encodeFrame ⟨5, [65, 65, 65, 65]⟩).take 10 := by decide
+
+/-- The code before the repair (a payload write that fails before its first byte leaves the mux
+    open although the frame's header is out): the next write's header is read as the payload of
+    the orphan header — connection 5 receives the four bytes `00 00 00 06` nobody wrote to it, and
+    the frame for connection 6 is not among the frames that come out.  Reproduced on the real code
+    (corpus/C11/tear-payload.jsonl). -/
+theorem unfixed_payload_failure_glues_frames :
+    let ops : List WOp := [⟨[⟨5, [65, 65, 65, 65]⟩], some (0, .payload 0)⟩,
+                           ⟨[⟨6, [66, 66, 66, 66, 66, 66, 66, 66]⟩], none⟩]
+    (wrun false ops).closed = false ∧
+    (wrun false ops).whole = [⟨6, [66, 66, 66, 66, 66, 66, 66, 66]⟩] ∧
+    ∃ rest, (decode (wrun false ops).out).1 = ⟨5, [0, 0, 0, 6]⟩ :: rest := by
+  refine ⟨by decide, by decide, ?_⟩
+  have hout : (wrun false [⟨[⟨5, [65, 65, 65, 65]⟩], some (0, .payload 0)⟩,
+                           ⟨[⟨6, [66, 66, 66, 66, 66, 66, 66, 66]⟩], none⟩]).out =
+      encodeFrame ⟨5, [0, 0, 0, 6]⟩ ++ [0, 0, 0, 8, 66, 66, 66, 66, 66, 66, 66, 66] := by decide
+  rw [hout, decode_frame ⟨5, [0, 0, 0, 6]⟩ (by decide) (by decide)]
+  exact ⟨_, rfl⟩
 
 /-! ### the unchanged code: a connection opened after the mux has closed never learns of it
 (finding C11:open-after-close) -/
